@@ -48,7 +48,7 @@ def checks():
     return [
         HypCheck(
             'programs', lambda: gen.programs(), run_case,
-            budget={'quick': (16, 110), 'thorough': (16, 12000)},
+            budget={'quick': (16, 220), 'thorough': (16, 12000)},
             rule='well-ordered writer programs built by walking the section '
                  'table (<=3 changes x <=3 files, texts <=6 lines incl. '
                  'header-like/hunk-like/BOM/NUL/misaligned-newline lines, '
